@@ -30,6 +30,7 @@ T_BASE = [
     "write(f(x));",
     "write(!val(x));",
     "x = (!val(x) + f(1)) % 4;",
+    "write(\"str\"); writeln(x);",
 ]
 
 
